@@ -15,7 +15,7 @@ func init() {
 		level: "other",
 		run:   runC02,
 		explanation: "Decides, on all paths of the node-level functions of avl/avl.go, that the code is the textbook AVL update - the structural necessary conditions of 'every node's subtree heights differ by at most one': " +
-			"(height-refresh) whenever a function stores to a child field of a node and that node then flows upwards (is returned, stored as somebody's child, or handed to a function that may return it unchanged), its cached height has been recomputed by calcHeight after the last child store - otherwise the parent reads a stale height and never rotates; " +
+			"(height-refresh) whenever a function stores to a child field of a node - or calls a shape-changing function on one of its children, which changes the subtree in place even when the same pointer comes back (a call whose change flag is false on the path is exempt) - and that node then flows upwards (is returned, stored as somebody's child, or handed to a function that may return it unchanged), its cached height has been recomputed by calcHeight after the last child store - otherwise the parent reads a stale height and never rotates; " +
 			"(rebalance-on-return) every function that returns a subtree root after storing to one of its child fields returns the result of rebalance (or of a rotation) on it; (height-convention) the empty-subtree height returned by leftHeight/rightHeight is exactly one less than calcHeight of a leaf, a one-child node is 1 + that child's height, a two-child node 1 + max; " +
 			"(rotation-table) balance() reports a lean exactly when the child heights differ by more than one, and rebalance maps (outer lean, STRICT sign of the heavy child's lean) to the four rotations - double rotation exactly when the heavy child leans the other way, single otherwise, nothing when balanced; rotations are classified structurally (which child is promoted; a double rotation rotates the child the other way first); " +
 			"(rotation-heights) inside a rotation the demoted node is re-linked and re-heighted before the promoted node's height is computed. " +
